@@ -379,3 +379,31 @@ func genPositional(r *rng) string {
 }
 
 func caseID(prop string, n int) string { return fmt.Sprintf("%s-%06d", prop, n) }
+
+// genFlatFiltered: a flat path (child / attribute / self steps from the context node or the root) whose element steps may
+// carry predicates of the C02 fragment — comparisons between paths and with literals (six operators), count and string
+// tests: its result sequence is still the oracle's document-ordered list, so it can stand wherever a flat path can.
+func genFlatFiltered(r *rng) string {
+	n := 1 + r.intn(3)
+	var parts []string
+	pr := func() string {
+		return r.pick([]string{"@k", "@k = @m", "@k != @a", "a = b", "* < @k", "@k >= '1'", "'2' > @a", "count(*) = 1", "count(@*) > 1", "contains(@k, '1')", "local-name() = 'a'",
+			"not(count(*))", "b < c or @k", "not(@k)", "@k = '1'", "text()", "starts-with(@k, @m)"})
+	}
+	for i := 0; i < n; i++ {
+		if i == n-1 && r.chance(1, 4) {
+			parts = append(parts, r.pick([]string{"@k", "@*", "@a"}))
+			continue
+		}
+		st := r.pick([]string{"a", "b", "*", "node()", "child::a", "self::*", "."})
+		if st != "." && r.chance(1, 2) {
+			st += "[" + pr() + "]"
+		}
+		parts = append(parts, st)
+	}
+	head := ""
+	if r.chance(1, 4) {
+		head = "/"
+	}
+	return head + strings.Join(parts, "/")
+}
